@@ -52,3 +52,5 @@ Definition hash_n (n : nat) (rc : record) : string := nth n (rc_hashes rc) Empty
 Definition reg_GetRecordsForExport (w : rworld) (id : Z) :=
   map (fun kr => mk_go_BeaconTimestampGenesisExport (fst kr) (rc_time (snd kr)) (hash_n 0 (snd kr)))
       (newest EXPORT_CAP (sort_by_key (records_of id (r_recs (rw_reg w))))).
+
+Definition beacon_ErrInvalidParams : Z := 40.     (* fmt.Errorf / errors.New in Params.Validate *)
